@@ -163,7 +163,7 @@ Definition new_node (env : denv) (ns : list node) (o : op) (l : link) : node :=
   | LNone => implicit
   | LDangling _ => implicit
   | LRel t p => if Nat.ltb p (length ns) then Node (Some p) l o else implicit
-  | LMulti ps => match multi_ref (node_times env None ns) ps with
+  | LMulti ps => match latest_of ns ps with
                  | None => implicit
                  | Some p => Node (Some p) l o
                  end
@@ -195,6 +195,12 @@ Qed.
 Lemma multi_ref_In tm ps p : multi_ref tm ps = Some p -> In p ps.
 Proof. destruct ps as [|q t]; simpl; [discriminate|]. intros H. inversion H; subst. apply multi_ref_from_In. Qed.
 
+Lemma latest_of_In ns ps p : latest_of ns ps = Some p -> In p ps.
+Proof.
+  unfold latest_of. intros H. apply find_some in H. destruct H as [_ H].
+  apply existsb_exists in H. destruct H as [q [Hq E]]. apply Nat.eqb_eq in E. now subst.
+Qed.
+
 (* the members of a multi-link handed to add_node must be nodes of the graph (add_node does not check this itself) *)
 Definition multi_in_range (n : nat) (l : link) : Prop :=
   match l with LMulti ps => Forall (fun q => q < n) ps | _ => True end.
@@ -220,7 +226,7 @@ Proof.
   unfold new_node. destruct l as [| t p | ps | t]; try exact I.
   - destruct (Nat.ltb p (length ns)) eqn:Hp; [|exact I]. apply Nat.ltb_lt in Hp. unfold link_ok. simpl.
     split; [intros q H; inversion H; subst; exact Hp | split; [reflexivity | exact Hp]].
-  - destruct (multi_ref (node_times env None ns) ps) as [p|] eqn:M; [|exact I]. apply multi_ref_In in M.
+  - destruct (latest_of ns ps) as [p|] eqn:M; [|exact I]. apply latest_of_In in M.
     simpl in R. unfold link_ok. simpl. split.
     + intros q H. inversion H; subst. rewrite Forall_forall in R. exact (R _ M).
     + split; [exists p; split; [reflexivity | exact M] | exact R].
